@@ -34,16 +34,48 @@ func slogCalls(fn *ssa.Function, msg string) []*ssa.Call {
 		if !strings.HasPrefix(n, "(*log/slog.Logger).") || len(c.Common().Args) < 2 {
 			return
 		}
-		if s, ok := constString(c.Common().Args[1]); ok && s == msg {
-			out = append(out, c)
+		if k := slogMsgIndex(c); k < len(c.Common().Args) {
+			if s, ok := constString(c.Common().Args[k]); ok && s == msg {
+				out = append(out, c)
+			}
 		}
 	})
 	return out
 }
 
+// slogMsgIndex: where the message stands among the arguments of a logging
+// method of *slog.Logger (receiver included): Info(msg, …), InfoContext(ctx,
+// msg, …), Log/LogAttrs(ctx, level, msg, …).
+func slogMsgIndex(c *ssa.Call) int {
+	n := calleeName(c.Common())
+	switch m := n[strings.LastIndex(n, ".")+1:]; {
+	case "Log" == m, "LogAttrs" == m:
+		return 3
+	case strings.HasSuffix(m, "Context"):
+		return 2
+	}
+	return 1
+}
+
 func slogLevel(c *ssa.Call) string {
 	n := calleeName(c.Common())
-	return n[strings.LastIndex(n, ".")+1:]
+	m := n[strings.LastIndex(n, ".")+1:]
+	if ("Log" == m || "LogAttrs" == m) && len(c.Common().Args) > 2 {
+		/* The level is an argument: slog.LevelInfo and friends. */
+		if k, ok := constInt(c.Common().Args[2]); ok {
+			switch {
+			case k >= 8:
+				return "Error"
+			case k >= 4:
+				return "Warn"
+			case k >= 0:
+				return "Info"
+			}
+			return "Debug"
+		}
+		return "a level not known before run time"
+	}
+	return strings.TrimSuffix(m, "Context")
 }
 
 // slogAttr returns the value logged under the given constant key.
@@ -52,6 +84,14 @@ func slogAttr(c *ssa.Call, key string) ssa.Value {
 	/* Elements are stored in index order. */
 	vals := orderedVariadic(c.Common())
 	_ = el
+	/* Already typed attributes: slog.String(key, v), slog.Any(key, v), … */
+	for _, v := range vals {
+		if ac, ok := stripConv(v, false).(*ssa.Call); ok && strings.HasPrefix(calleeName(ac.Common()), "log/slog.") && 2 == len(ac.Common().Args) {
+			if s, ok := constString(ac.Common().Args[0]); ok && s == key {
+				return stripConv(ac.Common().Args[1], false)
+			}
+		}
+	}
 	for i := 0; i+1 < len(vals); i += 2 {
 		if s, ok := constString(stripConv(vals[i], false)); ok && s == key {
 			return stripConv(vals[i+1], false)
@@ -164,6 +204,21 @@ func checkC11(p *Prog, r *Report) {
 					for _, t := range nilTestsOf(fn, pr.v) {
 						if edgeDominates(t.If, t.NilSucc, rec) {
 							dom = true
+						}
+						/* Or, for a flush which is nil where there is
+						nothing to flush and is called below a nil test:
+						every way from the write to the record is over the
+						success edge or round the call. */
+						if "flush" == pr.what && !dom {
+							if g, ns, ok := nilGuardOf(p, fn, fcall); ok && nil != g {
+								ne := map[Edge]bool{
+									{g.Block().Index, g.Block().Succs[ns].Index}:             true,
+									{t.If.Block().Index, t.If.Block().Succs[t.NilSucc].Index}: true,
+								}
+								if nil == (reachQ{From: locOf(wcall), NoEdges: ne, Target: func(i ssa.Instruction) bool { return i == ssa.Instruction(rec) }}).run() {
+									dom = true
+								}
+							}
 						}
 					}
 					if !dom {
